@@ -80,6 +80,8 @@ func init() {
 			Cases:    tierMap(24, 128),
 			Blocks:   tierMap(300, 600),
 			Finish:   disputeFinish,
+			// a tally / execution / expiry step that fails in BeginBlock did not follow the lifecycle
+			DeathModules: []string{"dispute"},
 		})
 	}
 }
@@ -90,8 +92,14 @@ func init() {
 			W: map[string]float64{"tip": 14, "submit": 30, "registerSpec": 1.5, "govProposal": 1.2, "govVote": 5, "proposeDispute": 3, "addFee": 2, "addEvidence": 2.5, "vote": 3,
 				"withdrawTokens": 3, "requestAttest": 3, "createReporter": 4, "selectReporter": 4, "unjailReporter": 3}}
 	}
-	Register(&PropDef{ID: "C07", Profile: func(tier string, r *Rng) Profile { return oracleProfile("c07-rounds") },
-		Monitors: func(st *Stats) []Monitor { return []Monitor{NewC07Monitor(st)} }, Cases: tierMap(24, 128), Blocks: tierMap(300, 800)})
+	Register(&PropDef{ID: "C07", Profile: func(tier string, r *Rng) Profile {
+		p := oracleProfile("c07-rounds")
+		if r.Chance(0.34) {
+			p.Fragments = []string{"depositExpiry"} // reports exactly at the end of a 2000-block deposit window
+		}
+		return p
+	},
+		Monitors: func(st *Stats) []Monitor { return []Monitor{NewC07Monitor(st)} }, Cases: tierMap(24, 128), Blocks: tierMap(300, 800), DeathModules: []string{"oracle"}})
 	Register(&PropDef{ID: "C08", Profile: func(tier string, r *Rng) Profile { return oracleProfile("c08-history") },
 		Monitors: func(st *Stats) []Monitor { return []Monitor{NewC08Monitor(st)} }, Cases: tierMap(20, 96), Blocks: tierMap(300, 800)})
 }
